@@ -31,7 +31,7 @@ def sizes_for(need, quick):
   sizes = set([need - 1, need, need + 64, 0, 1, 8, 63, 64])
   if quick:
     sizes |= set(int(x) for x in np.linspace(0, need, 40))
-    sizes |= set(range(0, min(need, 6144), 64))
+    sizes |= set(range(0, min(need, 8192), 32))
   else:
     sizes |= set(range(0, need, 64))
     sizes |= set(range(0, min(need, 8192), 8))
@@ -59,6 +59,12 @@ def main(ck):
   ck.run_hypothesis(collect, st.tuples(gc.scenes(max_objects=14 if ck.quick else 24), st.integers(0, 2 ** 31 - 1)),
                     nmodels, name='scenes')
   scenes[:] = scenes[:nmodels]
+  # fixed regression scene (found by this check): 14 spheres whose margins make every pair pass the broadphase, so that
+  # the arena need of the pair list exceeds the stack need of the broadphase (window of sizes with a failing pair push)
+  balls = ''.join('<body pos="%g %g %g"><freejoint/><geom type="sphere" size="0.1" margin="0.6"/></body>' % (
+      (i % 4) * 0.26, ((i // 4) % 4) * 0.26, 0.098) for i in range(14))
+  scenes.append((dict(body='<worldbody><geom type="plane" size="5 5 .1"/>%s</worldbody>' % balls,
+                      labels=['layout:cluster', 'regression-scene'], nobj=14), 0))
   from vf import build as vb
   for v in ('rel', 'asan'):
     vb.build(v)
@@ -111,6 +117,8 @@ def main(ck):
     for job, res in zip(pending, out):
       if res['ok']:
         r = res['result']
+        if r.get('discard'):
+          ck.discard('scene unstable with ample memory')
         for v in r['violations']:
           ck.violation('%s [%s build]' % (v['msg'], job['variant']), dict(xml=gc.render(job['scene']), seed=job['seed']),
                        bucket=v['bucket'])
